@@ -211,6 +211,7 @@ type ctlConn struct {
 	events  []string
 	dead    bool
 	frameSize int
+	writeSeg  int
 }
 
 func dial(port int) (*ctlConn, error) {
@@ -259,11 +260,33 @@ func (cc *ctlConn) secure(shared []byte) {
 	cc.br = bufio.NewReaderSize(frameReader{cc}, 4096)
 }
 
+// writeSeg puts the bytes on the socket, in TCP segments of at most cc.writeSeg bytes when that is set
+// (TCP_NODELAY is Go's default, a short pause lets each piece leave on its own)
+func (cc *ctlConn) writeOut(b []byte) error {
+	if cc.writeSeg <= 0 {
+		_, err := cc.c.Write(b)
+		return err
+	}
+	for len(b) > 0 {
+		n := len(b)
+		if n > cc.writeSeg {
+			n = cc.writeSeg
+		}
+		if _, err := cc.c.Write(b[:n]); err != nil {
+			return err
+		}
+		b = b[n:]
+		if len(b) > 0 {
+			time.Sleep(1500 * time.Microsecond)
+		}
+	}
+	return nil
+}
+
 func (cc *ctlConn) send(b []byte) error {
 	cc.c.SetWriteDeadline(time.Now().Add(3 * time.Second))
 	if !cc.secured {
-		_, err := cc.c.Write(b)
-		return err
+		return cc.writeOut(b)
 	}
 	// a controller may cut a message into frames of any size up to 1024 bytes
 	fsz := cc.frameSize
@@ -280,8 +303,7 @@ func (cc *ctlConn) send(b []byte) error {
 		cc.wctr++
 		b = b[n:]
 	}
-	_, err := cc.c.Write(out)
-	return err
+	return cc.writeOut(out)
 }
 
 type httpResp struct {
@@ -375,9 +397,11 @@ type setupRun struct {
 	notes  []string // what the controller verified about the accessory's messages
 	accName string
 	accLTPK []byte
+	sent    [][]byte // raw request bodies of this exchange, in order
 }
 
 func (s *setupRun) post(items []tlvItem) (map[byte][]byte, int, error) {
+	s.sent = append(s.sent, tlvEncode(items))
 	r, err := s.cc.request("POST", "/pair-setup", tlvCT, tlvEncode(items))
 	if err != nil {
 		return nil, 0, err
@@ -433,6 +457,18 @@ func (s *setupRun) m5(key []byte, K []byte, id *identity, signer ed25519.Private
 	material := append(append(append([]byte{}, x...), []byte(id.name)...), id.pub...)
 	sig := ed25519.Sign(signer, material)
 	inner := tlvEncode([]tlvItem{{tName, []byte(id.name)}, {tPub, id.pub}, {tSig, sig}})
+	switch tamper {
+	case "zerosig":
+		inner = tlvEncode([]tlvItem{{tName, []byte(id.name)}, {tPub, id.pub}, {tSig, make([]byte, 64)}})
+	case "nosig":
+		inner = tlvEncode([]tlvItem{{tName, []byte(id.name)}, {tPub, id.pub}})
+	case "othersig":
+		// somebody else's genuine signed sub-TLV (signed over another exchange's secret) under this exchange's key
+		o := newIdentity("other-signer")
+		ox := hk([]byte("another exchange"), "Pair-Setup-Controller-Sign-Salt", "Pair-Setup-Controller-Sign-Info")
+		om := append(append(append([]byte{}, ox...), []byte(id.name)...), o.pub...)
+		inner = tlvEncode([]tlvItem{{tName, []byte(id.name)}, {tPub, o.pub}, {tSig, ed25519.Sign(o.priv, om)}})
+	}
 	ct := sealMsg(key, "PS-Msg05", inner)
 	switch tamper {
 	case "flip":
